@@ -23,6 +23,10 @@ def run(ctx):
     answercheck.sweep(ctx, "C05", 45 if ctx.quick else 800, 8, judge_sat=False, judge_unsat=False, compare_configs=True, embed=True,
                       gen_kwargs=dict(p_incremental=0.3, p_big=0.2), all_configs=not ctx.quick)
 
+    # dense in the special top-level shapes (equality diamonds, distinct after merges, Bool-argument UFs): pure UF and UF+arithmetic
+    answercheck.sweep(ctx, "C05", 40 if ctx.quick else 800, 5, judge_sat=False, judge_unsat=False, compare_configs=True, embed=True,
+                      gen_kwargs=dict(p_incremental=0.3, p_big=0.0, p_special=0.6, stream=1), logics=["QF_UF", "QF_UF", "QF_UF", "QF_UFLIA", "QF_UFLRA"])
+
     # directed family: difference logic with constants at the word / double / int64 boundaries, stated in QF_IDL/QF_RDL
     # and in the embedding logic QF_LIA/QF_LRA
     import C02
